@@ -336,6 +336,9 @@ type Spec struct {
 	Replay func(check string, c json.RawMessage, res *Result)
 	// Shards: number of worker processes (0 = run in-process, single shard).
 	Shards func(tier string) int
+	// ShardProcs: GOMAXPROCS of each worker process (0 = 2). The cooperative scheduler hands over between goroutines
+	// several times per microsecond-scale step and is ~4x faster on a single P.
+	ShardProcs int
 	// Finish computes the level-specific coverage keys from the merged result.
 	Finish func(tier string, res *Result, cov map[string]any)
 	// MinOutcomes etc: vacuity guard; return non-empty string to end INCONCLUSIVE.
@@ -423,7 +426,11 @@ func Main(s Spec) {
 			go func(i int) {
 				defer wg.Done()
 				cmd := exec.Command(os.Args[0], tier)
-				cmd.Env = append(os.Environ(), fmt.Sprintf("VERIF_SHARD=%d/%d", i, n), "GOMAXPROCS=2")
+				procs := s.ShardProcs
+				if procs == 0 {
+					procs = 2
+				}
+				cmd.Env = append(os.Environ(), fmt.Sprintf("VERIF_SHARD=%d/%d", i, n), fmt.Sprintf("GOMAXPROCS=%d", procs))
 				cmd.Stderr = os.Stderr
 				out, err := cmd.Output()
 				if err != nil {
